@@ -68,6 +68,13 @@ def gen_cases(tier, seed):
                         if m == 'hanzi':
                             kw['mode'] = 'hanzi'
                         cases.append(common.mk(gen.content_for_bits(m, k), tag='per-version', **kw))
+                        if k != n or rng.random() < 0.5:
+                            # the same content with the version left to the library (one character above the
+                            # capacity: the next version has to take all of it)
+                            kw2 = {kk: vv for kk, vv in kw.items() if kk != 'version'}
+                            kw2['micro'] = isinstance(v, str)
+                            cases.append(common.mk(gen.content_for_bits(m, k), tag='per-version-auto',
+                                                   fn='make', **kw2))
     cases += common.eci_boundary_cases(rng, tier)
     if tier == 'thorough':
         # all 65,536 two-byte strings with defaults
